@@ -122,6 +122,10 @@ func (r *Result) Trivial(rule, key, pos, detail string) {
 // Bad records an undischarged obligation (becomes known/assumed when listed in the tables).
 func (r *Result) Bad(rule, key, pos, detail string) { r.add(rule, key, pos, Violated, detail, true) }
 
+// Assume records an obligation that a rule accepts on the strength of an exception frozen in
+// the checker's own table (with its reason); it is counted as assumed, never as discharged.
+func (r *Result) Assume(rule, key, pos, detail string) { r.add(rule, key, pos, Assumed, detail, true) }
+
 // Note records an informational item.
 func (r *Result) Note(rule, key, pos, detail string) { r.add(rule, key, pos, Info, detail, false) }
 
